@@ -59,7 +59,9 @@ func NewMultiHandler(create StartFunc, sessionID []byte) (*MultiHandler, error) 
 		messages:        newQueue(r.OtherPartyIDs(), r.FinalRoundNumber()),
 		broadcast:       newQueue(r.OtherPartyIDs(), r.FinalRoundNumber()),
 		broadcastHashes: map[round.Number][]byte{},
-		out:             make(chan *Message, 2*r.N()),
+		// large enough for every message of the whole session (at most N per round, plus the abort notice),
+		// so that neither this constructor nor Accept can ever block on a consumer that is not reading yet
+		out: make(chan *Message, (int(r.FinalRoundNumber())+1)*(r.N()+1)),
 	}
 	h.finalize()
 	return h, nil
